@@ -399,6 +399,19 @@ def reader_relational(prog, rep, u, wt, ls):
               function=ini.name, construct="inv:init")
 
 
+def reader_window(prog, rep):
+    """The relational window rules of netbuf_read.c alone (for the properties that are anchored in the reader too)."""
+    u = prog.unit(RU)
+    wt = u.func("netbuf_read_wait")
+    if wt is None:
+        raise cdb.AnalysisBroken("anchor missing: netbuf_read_wait")
+    ls = launches(wt)
+    if len(ls) != 2:
+        rep.defer_broken("F4: expected two sibling transport launches in netbuf_read_wait")
+        return
+    reader_relational(prog, rep, u, wt, ls)
+
+
 def reader(prog, rep):
     u = prog.unit(RU)
     wt = u.func("netbuf_read_wait")
